@@ -31,6 +31,51 @@ pub trait Runner {
     fn step(&mut self, line: &str, out: &mut Vec<String>, stats: &mut Stats);
 }
 
+/// A `tracing` subscriber that is enabled for every level and formats every field of every event
+/// and span into a sink.  The crate's log statements evaluate their arguments only when a subscriber
+/// wants them (a node run with `RUST_LOG=trace` does); "never panics" has to hold then as well.
+pub mod logsink {
+    use std::fmt::Write;
+    use tracing::field::{Field, Visit};
+    use tracing::span::{Attributes, Id, Record};
+    use tracing::{Event, Metadata, Subscriber};
+
+    struct Null;
+    impl Write for Null {
+        fn write_str(&mut self, _: &str) -> std::fmt::Result {
+            Ok(())
+        }
+    }
+    struct Sink;
+    impl Visit for Sink {
+        fn record_debug(&mut self, _f: &Field, v: &dyn std::fmt::Debug) {
+            let _ = write!(Null, "{:?}", v);
+        }
+    }
+    pub struct EvalAll;
+    impl Subscriber for EvalAll {
+        fn enabled(&self, _: &Metadata<'_>) -> bool {
+            true
+        }
+        fn new_span(&self, attrs: &Attributes<'_>) -> Id {
+            attrs.record(&mut Sink);
+            Id::from_u64(1)
+        }
+        fn record(&self, _: &Id, values: &Record<'_>) {
+            values.record(&mut Sink);
+        }
+        fn record_follows_from(&self, _: &Id, _: &Id) {}
+        fn event(&self, event: &Event<'_>) {
+            event.record(&mut Sink);
+        }
+        fn enter(&self, _: &Id) {}
+        fn exit(&self, _: &Id) {}
+    }
+    pub fn install() {
+        let _ = tracing::subscriber::set_global_default(EvalAll);
+    }
+}
+
 pub type GenFn = fn(&mut rng::Rng, &str, &str, &mut Stats) -> Vec<String>;
 
 /// `h_<engine> gen ENGINE SEED FIRST N TIER PROFILE` | `h_<engine> run ENGINE`
@@ -60,6 +105,7 @@ pub fn main_loop(mut r: Box<dyn Runner>, gen: GenFn) {
             }
         }
         "run" => {
+            logsink::install();
             std::panic::set_hook(Box::new(|_| {})); // panics are caught and reported as results
             let stdin = std::io::stdin();
             let mut out = Vec::new();
